@@ -300,4 +300,21 @@ def run(ctx, res):
 
 
 def replay(ctx, data):
-    print(data.get("input"))
+    inp = data.get("input")
+    print(inp)
+    if isinstance(inp, dict) and "zone" in inp and "params" in inp:
+        import zoneinfo
+        from datetime import datetime
+        import icalendar
+        from icalendar.prop import vDatetime
+        val = vDatetime(datetime(2020, 1, 1, 10, tzinfo=zoneinfo.ZoneInfo(inp["zone"])))
+        for i in range(inp["params"]):
+            val.params[["X-NOTE", "ALTREP", "X-A"][i]] = ["n", "u", "a"][i]
+        ev = icalendar.Event()
+        ev["X-WHEN"] = val
+        print("first :", ev.to_ical().decode())
+        print("second:", ev.to_ical().decode())
+    elif isinstance(inp, str) and inp.startswith("BEGIN:"):
+        import icalendar
+        for c in icalendar.Calendar.from_ical(inp, multiple=True):
+            print(c.to_ical().decode())
